@@ -33,7 +33,36 @@ int main(void){ struct cache_model c; c.n_cached=nondet_int(); __CPROVER_assume(
 '''
 
 
+def mutable_members(rep):
+    """const queries are concurrent-safe only if they write no object state: a `mutable` data member is state a const method may write.  Supporting static fact,
+    one obligation per `mutable` declaration in the library's headers and sources: accepted only for synchronisation primitives (std::mutex, std::atomic...)."""
+    import os, re
+    n = 0
+    for root in ("include/SQuIDS", "include/SQuIDS/detail", "src"):
+        d = os.path.join(core.REPO, root)
+        for f in sorted(os.listdir(d)):
+            if not f.endswith((".h", ".cpp", ".tcc")):
+                continue
+            txt = extract.strip_comments(open(os.path.join(d, f)).read())
+            for m in re.finditer(r'\bmutable\b([^;{]*);', txt):
+                if re.search(r'\]\s*\([^)]*\)\s*$', txt[max(0, m.start() - 80):m.start()]):
+                    continue          # `[..](..) mutable` of a lambda
+                line = txt.count("\n", 0, m.start()) + 1
+                decl = " ".join(m.group(0).split())
+                ok = bool(re.search(r'std::(mutex|recursive_mutex|shared_mutex|atomic\b|atomic_flag|once_flag)', decl))
+                n += 1
+                oid = "C18.mutable_member.%s.%d" % (f, line)
+                rep.add(oid, decl[:120], "L1", "static-scan", "discharged" if ok else "failed", 0.0, "%s/%s:%d" % (root, f, line),
+                        "" if ok else "object state writable by const member functions (shared by every thread that queries the object): `%s`" % decl[:200])
+                if not ok:
+                    path = core.write_replay("C18", oid, dict(obligation=oid, declaration=decl, verifier_output="static scan of mutable data members", reproduced=None))
+                    rep.violation(oid, path, nofail=True)
+    rep.rule("mutable_members.found", n)
+    rep.assume("const-correctness is relied on for the 'const queries on a shared object' clause: %d mutable data member(s) found (each is an obligation); const_cast of `this` is not searched for" % n)
+
+
 def run(rep, tier):
+    mutable_members(rep)
     bdir = core.builddir("C18")
     inv = statics.inventory()
     ctext, fjobs = statics.c_text(inv)
